@@ -3,9 +3,11 @@
 
     The connection is a net.Conn; TransmitFrame calls SetWriteDeadline (only when the context has
     a deadline) and Write on it. [conn_answers] gives the error each of the two calls returns
-    (None = nil). The byte count returned by Write is ignored by the code, so it is not part of
-    the answers. The result error wraps the connection's error ("transmit frame: %w"); the model
-    names the cause.
+    (None = nil) and the byte count [ans_write_n] that Write returns. The code IGNORES that count
+    ([if _, err := t.conn.Write(data); err != nil]): a Write answering (n < 16, nil) - which the
+    io.Writer contract forbids - counts as a success, and no second Write is ever made. The model
+    does the same (model = code), so [ans_write_n] occurs in no right-hand side below. The result
+    error wraps the connection's error ("transmit frame: %w"); the model names the cause.
 
     DEFINITIONS ONLY - proofs live in TransmitterProofs.v. *)
 From Coq Require Import ZArith List Bool.
@@ -26,7 +28,8 @@ Inductive tx_result :=
 
 Record conn_answers := mkAnswers {
   ans_deadline : option error;   (* what SetWriteDeadline returns *)
-  ans_write : option error       (* what Write returns *)
+  ans_write : option error;      (* the error Write returns *)
+  ans_write_n : Z                (* the byte count Write returns - ignored by the code *)
 }.
 
 Definition transmit (has_deadline : bool) (ans : conn_answers) (f : frame)
